@@ -150,6 +150,17 @@ func (in *interp) block(list []*Stmt, parent *env, f *Func) ([]Value, bool) {
 					return ret, true
 				}
 			}
+		case SForRange:
+			arr := in.eval(s.E, e).Copy()
+			loop := newEnv(e)
+			for i, el := range arr.Elems {
+				loop.define(s.Var, Value{Bits: big.NewInt(int64(i))})
+				loop.define(s.Name, el.Copy())
+				ret, done := in.block(s.Body, loop, f)
+				if done {
+					return ret, true
+				}
+			}
 		case SReturn:
 			if len(s.Es) == 0 {
 				var ret []Value
